@@ -95,6 +95,30 @@ func safeDecode(t reflect.Type, b []byte) (v reflect.Value, n int, class string)
 	return v, n, errClass(err)
 }
 
+// serviceTie runs ua.DecodeService on a four-byte type id followed by the body and compares with ua.Decode's result
+func serviceTie(sid uint16, body []byte, dval string) (res string) {
+	defer func() {
+		if r := recover(); r != nil {
+			res = "panic"
+		}
+	}()
+	idb, cls := safeEncode(ua.NewFourByteExpandedNodeID(0, sid))
+	if cls != "ok" {
+		return "type id does not encode: " + cls
+	}
+	tid, got, err := ua.DecodeService(append(append([]byte{}, idb...), body...))
+	if err != nil {
+		return "error: " + err.Error()
+	}
+	if tid == nil || tid.NodeID == nil || tid.NodeID.IntID() != uint32(sid) || tid.NodeID.Namespace() != 0 {
+		return "type id differs"
+	}
+	if d := dumpTop(reflect.ValueOf(got)); d != dval {
+		return "value differs: " + d
+	}
+	return "ok"
+}
+
 // top-level tree: customs are dumped as themselves, registered structs as the struct behind the pointer
 func dumpTop(v reflect.Value) string {
 	if v.Type().Implements(encoderT) {
@@ -135,6 +159,11 @@ func values(seed uint64, n int, emptyEO bool) {
 				if dcls == "ok" {
 					o["dval"] = dumpTop(d)
 					o["consumed"] = m
+					// ua.DecodeService on (type id ++ encoding) must be: the type id, the registered type, ua.Decode of the body
+					// (the model's decode_service of theorem C01_service is exactly that composition)
+					if sid := ua.ServiceTypeID(v.Interface()); sid != 0 {
+						o["svc"] = serviceTie(sid, b, o["dval"].(string))
+					}
 					b2, cls2 := safeEncode(d.Interface())
 					o["re"] = cls2
 					// the decoded value must be a fixed point: encode it again, decode, compare the trees
